@@ -611,3 +611,44 @@ func reachUnderCase(start *ssa.BasicBlock, cv ssa.Value, k int64) map[[2]int]boo
 	visit(start)
 	return edges
 }
+
+// ---------- PT-PURE
+
+// rulePTPure: parsing a timestamp depends on the text alone. The only
+// package-level state the parser may touch is the locked zone cache, whose
+// key is the numeric offset (TZ-KEY).
+func rulePTPure(c *Ctx) {
+	c.Rule("PT-PURE", "the timestamp parser touches no package-level state besides the locked zone cache", 2)
+	P := c.P
+	root := P.Func(P.Time, "parseTime")
+	if !c.Anchor(root != nil, "time.parseTime") {
+		return
+	}
+	seen := map[*ssa.Function]bool{}
+	var fns []*ssa.Function
+	var add func(f *ssa.Function)
+	add = func(f *ssa.Function) {
+		if f == nil || seen[f] || f.Blocks == nil || f.Pkg != P.Time {
+			return
+		}
+		seen[f] = true
+		fns = append(fns, f)
+		for _, cs := range callsIn(f) {
+			if cs.Static != nil {
+				add(cs.Static)
+			}
+		}
+	}
+	add(root)
+	for _, f := range fns {
+		bad := ""
+		for _, b := range f.Blocks {
+			for _, in := range b.Instrs {
+				if g := mutableStateOperand(P, in); g != nil {
+					bad = "uses the package-level variable " + globalKey(g) + " at " + P.pos(in.Pos())
+				}
+			}
+		}
+		c.Check(bad == "", fnKey(f)+"/pure", P.pos(f.Pos()), "no package-level state besides the zone cache", "the timestamp parser "+bad+": what it returns for one text can depend on texts parsed before")
+	}
+}
